@@ -115,6 +115,47 @@ def allFrames (cfg : Cfg) : Exc → List Frame
          | some x => if cfg.d2fixed && suppress then [] else allFrames cfg x
          | none => [])
 
+/-! ## The exception chain as an object graph (links may form cycles)
+
+`Exc` above is a finite tree and cannot hold `raise e from e` (`e.__cause__ is e`).  The code walks the object graph; as
+found it does so without remembering where it has been and never returns on a cycle.  With repair C17-H4 it keeps the set
+of visited exceptions and stops at the first one it meets again, which is what is modelled here: node `i` of `g` is an
+exception, its links are indices into `g`.  `fuel` only makes the recursion structural: every step puts a new index into
+`seen`; the visited indices are distinct and `< g.length` (`C17_cycle_visits_once` in Props.lean), hence at most `g.length`
+steps are taken and the fuel `g.length + 1` is never what ends the walk (this last counting step is not formalised). -/
+
+structure ENode where
+  tb : List Frame
+  cause : Option Nat
+  context : Option Nat
+  suppress : Bool
+deriving Repr
+
+/-- `__cause__`, else `__context__` (unless `d2fixed` and suppressed). -/
+def nextLink (cfg : Cfg) (n : ENode) : Option Nat :=
+  match n.cause with
+  | some c => some c
+  | none => if cfg.d2fixed && n.suppress then none else n.context
+
+/-- the exceptions visited, in order -/
+def visitG (cfg : Cfg) (g : List ENode) : Nat → List Nat → Option Nat → List Nat
+  | 0, _, _ => []
+  | _ + 1, _, none => []
+  | fuel + 1, seen, some i =>
+    if i ∈ seen then [] else
+    match g[i]? with
+    | none => []
+    | some n => i :: visitG cfg g fuel (i :: seen) (nextLink cfg n)
+
+def nodeFrames (g : List ENode) (i : Nat) : List Frame :=
+  match g[i]? with
+  | some n => n.tb.reverse
+  | none => []
+
+/-- `_get_all_frames_from_exception_obj` with the visited set, on the object graph. -/
+def allFramesG (cfg : Cfg) (g : List ENode) (start : Option Nat) : List Frame :=
+  (visitG cfg g (g.length + 1) [] start).flatMap (nodeFrames g)
+
 /-! ## Errors -/
 
 inductive Err where
